@@ -88,7 +88,16 @@ func baseError(L *LState) int {
 		obj = L.Get(1)
 	}
 	level := L.OptInt(2, 1)
-	L.Error(obj, level)
+	// luaB_error: a string (or number) raised at level > 0 gains the position of the function
+	// at that level - level 1 is the function that called error - if it is a Lua function
+	if _, isnum := obj.(LNumber); level > 0 && (isnum || obj.Type() == LTString) {
+		msg := obj.String()
+		if dbg, ok := L.GetStack(level); ok && !dbg.frame.Fn.IsG {
+			msg = L.where(level, false) + " " + msg
+		}
+		obj = LString(msg)
+	}
+	L.Error(obj, 0)
 	return 0
 }
 
